@@ -1,4 +1,5 @@
 import Tahoe.Storage.Mutable
+import Tahoe.Storage.Spec
 /-!
 Helper lemmas for C23/C24/C25 about the mutable container model: frame lemmas for the header
 fields, the specification of `_change_container_size` and `_write_share_data`, and their lifting to
@@ -311,5 +312,202 @@ theorem wsd_ok (f : File) (hwf : WF f) (off : Nat) (d : Bytes) (h : off + d.leng
       · have h1 : ¬ (i < off) := by omega
         have h2 : ¬ (i < off + d.length) := by omega
         rw [if_neg h0, if_neg h1, if_neg h2, if_neg h0]
+
+/-! ### `writev`, `readv`, `check_testv` against the byte-array specification -/
+
+theorem getElem?_absData (f : File) (j : Nat) :
+    (absData f)[j]? = if j < dataLength f then f[468 + j]? else none := by
+  unfold absData; rw [getElem?_pread]
+
+/-- `_read_share_data` is the clipped read of the byte array (no invariant needed) -/
+theorem readShareData_eq (f : File) (off len : Nat) :
+    readShareData f off len = Spec.read (absData f) off len := by
+  unfold readShareData Spec.read
+  apply List.ext_getElem?; intro i
+  rw [getElem?_pread, getElem?_absData]
+  by_cases h : off + len > dataLength f
+  · simp only [h, if_true]
+    by_cases h0 : dataLength f - off = 0
+    · have : ¬ (off + i < dataLength f) := by omega
+      simp [h0, this]
+    · simp only [h0, if_false, getElem?_pread]
+      by_cases h1 : i < dataLength f - off
+      · have a : i < len := by omega
+        have b : off + i < dataLength f := by omega
+        simp [h1, a, b, Nat.add_assoc]
+      · have b : ¬ (off + i < dataLength f) := by omega
+        simp [h1, b]
+  · simp only [h, if_false]
+    by_cases h0 : len = 0
+    · simp [h0]
+    · simp only [h0, if_false, getElem?_pread]
+      by_cases h1 : i < len
+      · have b : off + i < dataLength f := by omega
+        simp [h1, b, Nat.add_assoc]
+      · simp [h1]
+
+theorem readv_eq (f : File) (rv : List (Nat × Nat)) : readv f rv = Spec.readv (absData f) rv := by
+  unfold readv Spec.readv
+  apply List.map_congr_left
+  intro p _; exact readShareData_eq f p.1 p.2
+
+theorem checkTestv_eq (f : File) (tv : List (Nat × Nat × Bytes)) :
+    checkTestv f tv = Spec.testv (absData f) tv := by
+  unfold checkTestv Spec.testv
+  congr 1
+  funext p
+  obtain ⟨o, l, s⟩ := p
+  simp only [readShareData_eq]
+
+theorem checkTestvEmpty_eq (tv : List (Nat × Nat × Bytes)) : checkTestvEmpty tv = Spec.testv [] tv := by
+  unfold checkTestvEmpty Spec.testv
+  congr 1
+  funext p
+  obtain ⟨o, l, s⟩ := p
+  simp [Spec.read, pread]
+
+/-- every write vector ends at or below `MAX_SIZE` -/
+def FitsAll (dv : List (Nat × Bytes)) : Prop := ∀ p ∈ dv, p.1 + p.2.length ≤ MAX_SIZE
+
+theorem writeAll_ok (f : File) (hwf : WF f) (dv : List (Nat × Bytes)) (hfit : FitsAll dv) :
+    ∃ f', writeAll f dv = (f', none) ∧ WF f' ∧ absData f' = Spec.writeAll (absData f) dv ∧ SameMeta f f' := by
+  induction dv generalizing f with
+  | nil => exact ⟨f, rfl, hwf, rfl, SameMeta.refl f⟩
+  | cons p rest ih =>
+    obtain ⟨o, d⟩ := p
+    obtain ⟨f1, e1, w⟩ := wsd_ok f hwf o d (hfit (o, d) (List.mem_cons_self ..))
+    obtain ⟨f2, e2, wf2, d2, m2⟩ := ih f1 w.wf (fun q hq => hfit q (List.mem_cons_of_mem _ hq))
+    refine ⟨f2, ?_, wf2, ?_, w.same.trans m2⟩
+    · simp only [writeAll, e1, e2]
+    · rw [d2, w.data]; rfl
+
+/-- whatever the vectors: the loop leaves a well-formed container with the same leases, and can only
+    fail with `DataTooLargeError` -/
+theorem writeAll_any (f : File) (hwf : WF f) (dv : List (Nat × Bytes)) :
+    WF (writeAll f dv).1 ∧ SameMeta f (writeAll f dv).1 ∧
+    ((writeAll f dv).2 = none ∨ ((writeAll f dv).2 = some .dataTooLarge ∧ ¬ FitsAll dv)) := by
+  induction dv generalizing f with
+  | nil => exact ⟨hwf, SameMeta.refl f, Or.inl rfl⟩
+  | cons p rest ih =>
+    obtain ⟨o, d⟩ := p
+    by_cases h : o + d.length ≤ MAX_SIZE
+    · obtain ⟨f1, e1, w⟩ := wsd_ok f hwf o d h
+      obtain ⟨a, b, c⟩ := ih f1 w.wf
+      simp only [writeAll, e1]
+      refine ⟨a, w.same.trans b, ?_⟩
+      rcases c with c | ⟨c, nf⟩
+      · exact Or.inl c
+      · exact Or.inr ⟨c, fun hf => nf (fun q hq => hf q (List.mem_cons_of_mem _ hq))⟩
+    · have e := wsd_err f hwf o d (by omega)
+      simp only [writeAll, e]
+      exact ⟨hwf, SameMeta.refl f, Or.inr ⟨trivial, fun hf => h (hf (o, d) (List.mem_cons_self ..))⟩⟩
+
+theorem applyNewLength_spec (f : File) (hwf : WF f) (nl : Option Nat) :
+    WF (applyNewLength f nl) ∧ absData (applyNewLength f nl) = Spec.newLength (absData f) nl ∧
+    SameMeta f (applyNewLength f nl) := by
+  cases nl with
+  | none => exact ⟨hwf, rfl, SameMeta.refl f⟩
+  | some n =>
+    have hal := length_absData hwf
+    simp only [applyNewLength, Spec.newLength, hal]
+    by_cases h : n < dataLength f
+    · simp only [h, if_true]
+      have hdata := hwf.data_le; have hext := hwf.ext_le; have hlen := hwf.len_ge
+      unfold writeDataLength
+      have hl : (pwrite f 84 (packU64 n)).length = f.length :=
+        length_pwrite_of_le _ _ _ (by rw [length_packU64]; omega)
+      have fr : ∀ o m, (o + m ≤ 84 ∨ (92 ≤ o ∧ o + m ≤ 468) ∨ extOff f ≤ o) →
+          pread (pwrite f 84 (packU64 n)) o m = pread f o m := by
+        intro o m hor
+        apply pread_pwrite_disj
+        rw [length_packU64]; omega
+      obtain ⟨me, mn, ms⟩ := meta_of_frame f _ fr
+      have hdl : dataLength (pwrite f 84 (packU64 n)) = n := by
+        unfold dataLength
+        have := pread_pwrite_eq f 84 (packU64 n)
+        rw [length_packU64] at this
+        rw [this, unpack_packU64_small _ (by omega)]
+      refine ⟨⟨?_, ?_, ?_⟩, ?_, ms⟩
+      · rw [hdl, me]; omega
+      · rw [me]; exact hext
+      · rw [me, mn, hl]; exact hlen
+      · unfold absData
+        rw [hdl, pread_pwrite_gt _ _ _ _ _ (by rw [length_packU64]; omega)]
+        rw [← pread_zero_eq_take, pread_pread _ _ _ _ _ (by omega)]
+    · simp only [h, if_false]
+      exact ⟨hwf, trivial, SameMeta.refl f⟩
+
+/-- `writev` when every vector fits: no error, and the data is the specification's `writev` -/
+theorem writev_ok (f : File) (hwf : WF f) (dv : List (Nat × Bytes)) (nl : Option Nat) (hfit : FitsAll dv) :
+    ∃ f', writev f dv nl = (f', none) ∧ WF f' ∧ absData f' = Spec.writev (absData f) dv nl ∧ SameMeta f f' := by
+  obtain ⟨f1, e1, wf1, d1, m1⟩ := writeAll_ok f hwf dv hfit
+  obtain ⟨a, b, c⟩ := applyNewLength_spec f1 wf1 nl
+  refine ⟨applyNewLength f1 nl, ?_, a, ?_, m1.trans c⟩
+  · simp only [writev, e1]
+  · rw [b, d1]; rfl
+
+/-- `writev` in general: invariant and leases are kept even when it fails half-way -/
+theorem writev_any (f : File) (hwf : WF f) (dv : List (Nat × Bytes)) (nl : Option Nat) :
+    WF (writev f dv nl).1 ∧ SameMeta f (writev f dv nl).1 := by
+  obtain ⟨a, b, _⟩ := writeAll_any f hwf dv
+  unfold writev
+  generalize writeAll f dv = r at *
+  obtain ⟨f1, e⟩ := r
+  cases e with
+  | none =>
+    obtain ⟨x, _, z⟩ := applyNewLength_spec f1 a nl
+    exact ⟨x, b.trans z⟩
+  | some e => exact ⟨a, b⟩
+
+/-! ### a freshly created container -/
+
+theorem length_magicOf (s : Schema) : (magicOf s).length = 32 := by cases s <;> decide
+
+theorem create_fields (s : Schema) (nodeid we : Bytes) :
+    dataLength (create s nodeid we) = 0 ∧ extOff (create s nodeid we) = 468 ∧
+    numExtra (create s nodeid we) = 0 ∧ (create s nodeid we).length = 472 ∧
+    enabler (create s nodeid we) = fixN 32 we ∧ schemaOf (create s nodeid we) = some s := by
+  have hm := length_magicOf s
+  have hlen : (create s nodeid we).length = 472 := by simp [create, hm]
+  have e1 : pread (create s nodeid we) 84 8 = packU64 0 := by
+    simp only [create, List.append_assoc]
+    rw [pread_append_of_le _ _ _ _ (by omega), pread_append_of_le _ _ _ _ (by simp; omega),
+      pread_append_of_le _ _ _ _ (by simp; omega)]
+    simp only [hm, length_fixN]
+    exact pread_append_prefix _ _ _ (by simp)
+  have e2 : pread (create s nodeid we) 92 8 = packU64 468 := by
+    simp only [create, List.append_assoc]
+    rw [pread_append_of_le _ _ _ _ (by omega), pread_append_of_le _ _ _ _ (by simp; omega),
+      pread_append_of_le _ _ _ _ (by simp; omega), pread_append_of_le _ _ _ _ (by simp; omega)]
+    simp only [hm, length_fixN, length_packU64]
+    exact pread_append_prefix _ _ _ (by simp)
+  have e3 : pread (create s nodeid we) 468 4 = packU32 0 := by
+    simp only [create, List.append_assoc]
+    rw [pread_append_of_le _ _ _ _ (by omega), pread_append_of_le _ _ _ _ (by simp; omega),
+      pread_append_of_le _ _ _ _ (by simp; omega), pread_append_of_le _ _ _ _ (by simp; omega),
+      pread_append_of_le _ _ _ _ (by simp; omega), pread_append_of_le _ _ _ _ (by simp; omega)]
+    simp only [hm, length_fixN, length_packU64, length_zeros]
+    simp [pread, packU32, packBE]
+  have e4 : pread (create s nodeid we) 52 32 = fixN 32 we := by
+    simp only [create, List.append_assoc]
+    rw [pread_append_of_le _ _ _ _ (by omega), pread_append_of_le _ _ _ _ (by simp; omega)]
+    simp only [hm, length_fixN]
+    exact pread_append_prefix _ _ _ (by simp)
+  have e5 : pread (create s nodeid we) 0 32 = magicOf s := by
+    simp only [create, List.append_assoc]
+    exact pread_append_prefix _ _ _ hm.symm
+  have hext : extOff (create s nodeid we) = 468 := by unfold extOff; rw [e2]; decide
+  refine ⟨by unfold dataLength; rw [e1]; decide, hext, by unfold numExtra; rw [hext, e3]; decide, hlen,
+    by unfold enabler; exact e4, ?_⟩
+  unfold schemaOf; simp only [e5]
+  cases s <;> decide
+
+theorem create_wf (s : Schema) (nodeid we : Bytes) : WF (create s nodeid we) := by
+  obtain ⟨a, b, c, d, _⟩ := create_fields s nodeid we
+  have := MAX_SIZE_lt
+  exact ⟨by rw [a, b]; omega, by rw [b]; omega, by rw [b, c, d]; omega⟩
+
+theorem absData_create (s : Schema) (nodeid we : Bytes) : absData (create s nodeid we) = [] := by
+  unfold absData; rw [(create_fields s nodeid we).1]; simp [pread]
 
 end Tahoe.Storage.Mutable
